@@ -83,7 +83,7 @@ def strat():
                                   baseline=draw(points(2, 6)), polygon=draw(points(4, 10)),
                                   heights=draw(st.one_of(st.none(), st.tuples(height, height))),
                                   transcription=tr, conf=conf))
-            regions.append(dict(id=rid, type=draw(st.one_of(st.none(), st.sampled_from(["paragraph", "heading", "x y"]))),
+            regions.append(dict(id=rid, type=draw(st.one_of(st.none(), st.sampled_from(["paragraph", "heading", "x y", "TOC-entry", "page-number", "signature-mark", "Überschrift", "other", " caption"]))),
                                 polygon=draw(points(3, 8)), text=draw(st.one_of(st.none(), st.just(""), xml_text())),
                                 lines=lines))
         ro_mode = draw(st.sampled_from(["none", "perm", "partial", "foreign", "identity"]))
